@@ -79,6 +79,8 @@ impl ShardRouter {
                 return; // Reject stale update
             }
         }
+        #[cfg(feature = "verif-hooks")]
+        crate::verif_hooks::sync_point("router.update_routing.after_check");
         self.cache.insert(
             shard_id,
             RoutingEntry {
